@@ -151,3 +151,52 @@ func padTape(t []int, n int) []int {
 	copy(out, t)
 	return out
 }
+
+// smallModelCheck makes the small-scope hypothesis of a decision table explicit: the subject (with its literals and
+// in-scope static callees) must not compare a plain int quantity (a length, a counter) with a constant larger than
+// the table's bound - otherwise behaviour could change beyond what the table enumerates.
+func smallModelCheck(c *core.Ctx, r *core.Report, rule, cons string, fn *ssa.Function, bound int64) {
+	seen := map[*ssa.Function]bool{}
+	bad := ""
+	var visit func(f *ssa.Function, depth int)
+	visit = func(f *ssa.Function, depth int) {
+		if f == nil || seen[f] || f.Blocks == nil || !c.InScope(f) || depth > 3 {
+			return
+		}
+		seen[f] = true
+		for _, b := range f.Blocks {
+			for _, in := range b.Instrs {
+				switch x := in.(type) {
+				case *ssa.BinOp:
+					switch x.Op.String() {
+					case "<", "<=", ">", ">=", "==", "!=":
+						for _, side := range []ssa.Value{x.X, x.Y} {
+							k, ok := core.ConstInt(side)
+							if !ok {
+								continue
+							}
+							if bt, isB := side.Type().(*types.Basic); !isB || (bt.Kind() != types.Int && bt.Kind() != types.UntypedInt) {
+								continue
+							}
+							if k > bound || k < -1 {
+								bad = fmt.Sprintf("comparison with constant %d at %s", k, c.Pos(x.Pos()))
+							}
+						}
+					}
+				case ssa.CallInstruction:
+					if cal := x.Common().StaticCallee(); cal != nil && !core.IsLogCall(x.Common()) {
+						visit(cal, depth+1)
+					}
+				case *ssa.MakeClosure:
+					visit(x.Fn.(*ssa.Function), depth+1)
+				}
+			}
+		}
+	}
+	visit(fn, 0)
+	if bad != "" {
+		r.Undecided(rule, cons+":small-model", c.FnPos(fn), fmt.Sprintf("the subject compares a length/counter with a constant beyond the table bound %d (%s): the enumerated inputs no longer cover its behaviour", bound, bad))
+	} else {
+		r.Hold(rule, cons+":small-model", c.FnPos(fn), fmt.Sprintf("no length/counter threshold above the table bound %d in the subject and its in-scope callees (%d functions): behaviour beyond the bound is uniform", bound, len(seen)))
+	}
+}
